@@ -126,7 +126,7 @@ Section FromState.
       pose proof (brun_AllOps src (init o m) HI0 (init_Ord o m) Hsrc (init_AllOps o m Po) Fs) as AB.
       assert (HWF : WF (brun (init o m) src)).
       { exists (fun x => x). intros x d q E Pq. destruct HOB as [O1 _]. eapply O1; eassumption. }
-      destruct (insert_ok h (brun (init o m) src) p HI HIB HWF) as (A' & mp & Hins & _ & HIF).
+      destruct (insert_ok [] h (brun (init o m) src) p HI HIB HWF) as (A' & mp & Hins & _ & HIF).
       { unfold s_live, dfl in Hp. destruct (gget h _); congruence. }
       rewrite Hins. cbn [fst]. intros x d' E.
       destruct (if_only _ _ _ _ _ HIF x ltac:(congruence)) as [Hold|[c Hc]].
